@@ -220,6 +220,9 @@ harness(void)
 #if CHECK14 && FLUSH1 != 0
         /* ---- C14: the flush point = the moment the flushing call sequence for chunk 1 returned with
          * avail_in == 0 and (avail_out > 0 or state == ZSTATE_NEW_HDR) */
+#if OC >= 32
+        VASSERT(flush_seen, "ample output space: the flushing call returns with input consumed and space left (C14 premise occurs)");
+#endif
         if (flush_seen) {
                 VASSERT(flush_state == ZSTATE_NEW_HDR, "state ZSTATE_NEW_HDR after a completed flush");
                 VASSERT(flush_point >= hl + 4 && full[flush_point - 4] == 0x00 && full[flush_point - 3] == 0x00 &&
